@@ -386,6 +386,18 @@ def _res_ok(ex, st, c, args, dty):
     return Adt("Option", "None", ())
 
 
+@reg("Result::or")
+def _res_or(ex, st, c, args, dty):
+    v = args[0]
+    return Adt("Result", "Ok", (v.fields[0],)) if v.variant == "Ok" else args[1]
+
+
+@reg("Option::or")
+def _opt_or(ex, st, c, args, dty):
+    v = args[0]
+    return v if v.variant == "Some" else args[1]
+
+
 @reg("Option::unwrap_or")
 def _opt_unwrap_or(ex, st, c, args, dty):
     v = args[0]
